@@ -2,8 +2,8 @@
 EXTENDS Envelope
 VARIABLE c
 Init == c = 0
-Next == c < 6 /\ c' = c + 1
+Next == c < 7 /\ c' = c + 1
 Spec == Init /\ [][Next]_c
 EnvInv == CASE c = 1 -> ThmTable(Square(0)) [] c = 2 -> ThmRate(Square(0)) [] c = 3 -> ThmRows(Square(0))
-            [] c = 4 -> ThmMonotone(Square(0)) [] c = 5 -> ThmSymmetric(Square(0)) [] c = 6 -> ThmWork(Square(0)) [] OTHER -> TRUE
+            [] c = 4 -> ThmMonotone(Square(0)) [] c = 5 -> ThmSymmetric(Square(0)) [] c = 6 -> ThmWork(Square(0)) [] c = 7 -> ThmBreaks(Square(0)) [] OTHER -> TRUE
 =============================================================================
